@@ -35,7 +35,9 @@ type obs struct {
 }
 
 var peers = []string{"127.0.0.1", "10.0.0.1", "172.16.0.1", "192.168.1.1", "169.254.1.1", "8.8.8.8",
-	"::1", "fe80::1", "fc00::1", "2001:db8::1", "::ffff:10.0.0.1"}
+	"::1", "fe80::1", "fc00::1", "2001:db8::1", "::ffff:10.0.0.1",
+	// neighbours of listed single addresses: same /8, /24, /32 or /64 but not listed themselves
+	"10.0.0.2", "8.8.8.9", "2001:db8::2", "2001:db8:ffff::5", "::2"}
 
 var proxyMenu = []string{"10.0.0.1", "10.0.0.0/8", "2001:db8::/32", "2001:DB8::1", "0:0:0:0:0:0:0:1", "garbage", "8.8.8.8"}
 
